@@ -367,7 +367,7 @@ func (g *c01Gen) stmt() (string, string) {
 		{"time-span", func() string {
 			unit := g.pick([]string{"seconds", "hours", "days", "nanoseconds", "weeks", "years", "months", "minutes"})
 			val := g.pick([]string{"1", "-1", "0", "9223372036854775807", "1.5", "1e300", "18446744073709551616"})
-			return fmt.Sprintf("%[1]s := (%[2]s).%[3]s\nprintln %[1]s.inspect\nprintln((%[1]s * %[4]s).inspect)\nprintln((%[1]s / %[5]s).inspect)\nprintln((%[1]s + %[1]s).inspect)", x, val, unit, g.pick([]string{"2", "0", "-1", "1e300", "9223372036854775807"}), g.pick([]string{"2", "0", "0.0", "-1", "0.0bf"}))
+			return fmt.Sprintf("%[1]s := (%[2]s).%[3]s\nprintln %[1]s.inspect\nprintln((%[1]s * %[4]s).inspect)\nprintln((%[1]s / %[5]s).inspect)\nprintln((%[1]s + %[1]s).inspect)", x, val, unit, g.pick([]string{"2", "0", "-1", "1e300", "9223372036854775807"}), g.pick([]string{"2", "0", "0.0", "-1", "2.5bf"}) /* K75: division by 0.0bf is witnessed, not regenerated */)
 		}},
 		{"regex", func() string {
 			return fmt.Sprintf("%s := %%/%s/%s\nprintln %s.matches(%s).inspect\nprintln((%s + %%/b/).inspect)", x, g.pick([]string{"a+", "(a|b)*c", "\\\\d{2,3}", "[a-z&&[^b]]", "\\\\p{L}+", "^$", "a{1000}", "(?i:x)", "(?<n>a)\\\\k<n>", "\\\\u0041", "."}), g.pick([]string{"", "i", "m", "s", "x", "U", "a", "imsxUa"}), x, g.str(1), x)
@@ -591,11 +591,11 @@ func init() {
 			if tier == "thorough" {
 				return 400000
 			}
-			return 12000
+			return 5000
 		},
 		Case:        c01Case,
 		CPUBudget:   60,
-		MinCounters: map[string]int64{"programs_run": 8000, "gprog_programs": 1500, "elk_errors_caught_by_program": 1000, "runs_ending_in_uncaught_elk_error": 200},
+		MinCounters: map[string]int64{"programs_run": 3500, "gprog_programs": 700, "elk_errors_caught_by_program": 700, "runs_ending_in_uncaught_elk_error": 100},
 		Assumptions: []string{"exhausting the configured stack limits is exempt by the property and is not generated; blocking forever (deadlock on a mutex locked twice, wait on a positive WaitGroup) is not a crash and is not generated; memory corruption is looked for by the race/ASan variants of other checks, here only through its crashes"},
 	})
 }
